@@ -14,6 +14,30 @@ P = {
         text="Every generated scalar expression (all public node kinds x 4 variable-list relations, plus seeded random grammar) is evaluated through evaluate / compile_expression (cold, cached, iterative builder) / compile_to_dict_function / CompiledExpression and after Parameter.set(), and each observation is compared with an independent float64 interpreter of the same recipe. Held-on-observed only: a finite sample of an infinite program space.",
         ref="3/C01",
     ),
+    "C02": dict(
+        level="exploration",
+        technique="runtime monitoring: symbolic gradients of generated programs evaluated against an independent forward-mode (jet) reference",
+        text="For every generated scalar expression and every variable of a superset of its variables (occurring and non-occurring), gradient(e, v) from the recursive and from the iterative traversal is evaluated at 3 regular points and compared with own forward-mode Taylor arithmetic on the recipe; absent variables must give exactly 0. Held-on-observed only.",
+        ref="3/C02",
+    ),
+    "C03": dict(
+        level="exploration",
+        technique="runtime monitoring: compiled Jacobian/gradient callables vs jet reference across variable-list relations; fast-path names recorded",
+        text="compile_jacobian (m=1,2,4 rows), compile_gradient and CompiledExpression.gradient are called on generated expression lists under exact / permuted / superset / superset+permuted variable lists and every entry is compared with the jet reference; which shortcut served each case is read from the callable's __name__ and reported. Held-on-observed only.",
+        ref="3/C03",
+    ),
+    "C04": dict(
+        level="exploration",
+        technique="runtime monitoring: semantic degree oracle (finite differences of the reference along random rational lines, exact in Fractions)",
+        text="Every finite degree / linear / quadratic verdict reported through Expression.degree (fresh and cached), compute_degree, is_linear, is_quadratic, the iterative traversal and Problem._is_linear_problem on generated expressions is tested against the (d+1)-th finite difference of an independent interpreter of the same formula along random rational lines; only under-reporting is judged. Probabilistic (Schwartz-Zippel) and sample-based.",
+        ref="3/C04",
+    ),
+    "C11": dict(
+        level="exploration",
+        technique="runtime monitoring: construction recipes interpreted by NumPy-semantics reference; enumerated operand-kind/shape-mismatch matrix; view name checks",
+        text="An enumerated matrix of operation x operand kind x operand order (incl. every shape mismatch) for vectors and matrices, a table of view recipes (slices, rows, columns, diagonals, transposes, symmetric sharing) and seeded random construction recipes are built through the public operators and evaluated; values and shapes must equal the reference interpreter's and mismatched operands must raise. The operand matrix is enumerated completely; the random part is a sample.",
+        ref="3/C11",
+    ),
 }
 
 PENDING = "check under construction in this round (see DESIGN.md section 3 for the planned monitor)"
